@@ -77,6 +77,9 @@ impl CreationTimestamp {
     /// assert_eq!(time3.seqno(), 0);
     /// ```
     pub fn now() -> CreationTimestamp {
+        // verification hook: instrumented atomics that yield to a scheduler before every operation
+        #[cfg(bp7_verif)]
+        use crate::verif_hooks::AtomicUsize;
         static LAST_CREATION_TIMESTAMP: AtomicUsize = AtomicUsize::new(0);
         static LAST_CREATION_SEQ: AtomicUsize = AtomicUsize::new(0);
         let now = dtn_time_now();
